@@ -3,6 +3,7 @@ import MqttVerif.Driver.FrameDrv
 import MqttVerif.Driver.ConnDrv
 import MqttVerif.Driver.TablesDrv
 import MqttVerif.Driver.CodecDrv
+import MqttVerif.Driver.AliasDrv
 /-!
 `mqttdrv` — reads a trace (produced by the Rust harness running the real code) on stdin,
 replays every call through the Lean model, evaluates the property monitors on the
@@ -23,6 +24,7 @@ inductive Mode
   | pair (st : PairSt)
   | tables (name : String)
   | codec (st : CodecSt)
+  | alias (st : AliasSt)
 
 partial def loop (h : IO.FS.Stream) (ln : Nat) (m : Mode) (r : Report) : IO Report := do
   let raw ← h.getLine
@@ -34,6 +36,10 @@ partial def loop (h : IO.FS.Stream) (ln : Nat) (m : Mode) (r : Report) : IO Repo
     | _ :: "alloc" :: rest =>
       match allocStart rest with
       | some st => loop h (ln + 1) (.alloc st []) { r with traces := r.traces + 1 }
+      | none => loop h (ln + 1) .none (r.mdiff "parse" s!"line {ln}: bad trace header `{line}`")
+    | _ :: "alias" :: rest =>
+      match aliasStart rest with
+      | some st => loop h (ln + 1) (.alias st) { r with traces := r.traces + 1 }
       | none => loop h (ln + 1) .none (r.mdiff "parse" s!"line {ln}: bad trace header `{line}`")
     | _ :: "pair" :: rest => loop h (ln + 1) (.pair (pairStart rest)) { r with traces := r.traces + 1 }
     | _ :: "gates" :: _ => loop h (ln + 1) .gates { r with traces := r.traces + 1 }
@@ -63,6 +69,12 @@ partial def loop (h : IO.FS.Stream) (ln : Nat) (m : Mode) (r : Report) : IO Repo
         let (st', r') := allocLine st ln (line.drop 2).toString r
         loop h (ln + 1) (.alloc st' stack) r'
       else loop h (ln + 1) m (r.mdiff "parse" s!"line {ln}: unexpected `{line}`")
+    | .alias st =>
+      if line = "END" then loop h (ln + 1) .none r
+      else if line.startsWith "A " then
+        let (st', r') := aliasLine st ln (line.drop 2).toString r
+        loop h (ln + 1) (.alias st') r'
+      else loop h (ln + 1) m (r.mdiff "parse" s!"line {ln}: unexpected `{line.take 60}`")
     | .pair st =>
       if line = "END" then loop h (ln + 1) .none r
       else loop h (ln + 1) m (pairLine st ln line r)
